@@ -405,13 +405,18 @@ impl Affine {
         let angle = 0.5 * (2.0 * (ab + cd)).atan2(a2 - b2 + c2 - d2);
         let s1 = a2 + b2 + c2 + d2;
         let s2 = ((a2 - b2 + c2 - d2).powi(2) + 4.0 * (ab + cd).powi(2)).sqrt();
-        (
-            Vec2 {
-                x: (0.5 * (s1 + s2)).sqrt(),
-                y: (0.5 * (s1 - s2)).sqrt(),
-            },
-            angle,
-        )
+        let x = (0.5 * (s1 + s2)).sqrt();
+        // The product of the two singular values is |det|. Computing the minor one as
+        // `(0.5 * (s1 - s2)).sqrt()` cancels catastrophically for elongated ellipses (radii
+        // (1e4, 1e-3) come back with a relative error of 3e-3) and gives NaN when rounding
+        // makes `s1 - s2` negative for a singular map.
+        let y = if x == 0.0 {
+            0.0
+        } else {
+            // `min` keeps `y <= x` when rounding would push the quotient one ulp above `x`.
+            ((a * d - b * c).abs() / x).min(x)
+        };
+        (Vec2 { x, y }, angle)
     }
 
     /// Returns the translation part of this affine map (`(self.0[4], self.0[5])`).
